@@ -24,9 +24,11 @@ def sched_kwargs(desc):
 
 def schedule_modes(rng):
     r = rng.random()
-    if r < 0.15:
+    if r < 0.12:
         return dict(mode="random", p_switch=0.02, trace_lines=True)
-    if r < 0.55:
+    if r < 0.40:
+        return dict(mode="bnd", p_switch=rng.choice([0.3, 0.5, 0.7]), trace_lines=True)
+    if r < 0.60:
         return dict(mode="random", p_switch=rng.choice([0.05, 0.1, 0.2, 0.4]), trace_lines=True)
     if r < 0.75:
         return dict(mode="pct", trace_lines=True)
